@@ -5,15 +5,16 @@
     [idem_hyp] / [idemb] (Wf.v) are computable booleans.
     - read (write i) = canon i is proved from [wf_fits] alone: structure + "every value
       fits its field" (what a formatted field reads back as is proved in Fields.v).
-    - write (canon i) = write i additionally assumes, per field, that formatting the
-      canonical value reproduces the text ([idem_ok]: the 15-significant-digit round trip of
-      binary64), which is NOT proved here: those theorems are named [_partial]; the
-      hypothesis is evaluated on every generated object by the extracted model and the
-      byte-identity itself by the oracle on the implementation. *)
+    - write (canon i) = write i is proved from [wf_fits] and [stable_hyp] (Stable.v), a
+      computable guard that excludes exactly: the two recorded defects of the second write
+      (long-header sumtim; a lowered precision that rounds into a shorter exponent), more
+      than 14 printed decimals, and printed decimal exponents outside [-300, 300] (where the
+      exact-rational argument "the double nearest a (q+1)-digit decimal prints the same q+1
+      digits" of SciTrip.v / RealIdem.v is not carried out).  No per-field hypothesis is left. *)
 From Coq Require Import Ascii String List Bool Arith ZArith NArith.
 From PTBase Require Import Exn PyStr PyNum PyVal Fmt FixedFormat.
 From Gen Require Import GenTables GenNames GenPad.
-From P Require Import Num Names InconIO Wf Lines Blocks RoundTrip Idem Bridge Fields Fits Current.
+From P Require Import Digits SciTrip Num RealIdem Names InconIO Wf Lines Blocks RoundTrip Idem Bridge Fields Fits Stable Current.
 Import ListNotations.
 
 (** finite obligation over the regenerated table: all seven record kinds present, field
@@ -95,31 +96,52 @@ Theorem incon_full_precision_when_it_fits : forall f v s,
 Proof. exact used_prec_full. Qed.
 Print Assumptions incon_full_precision_when_it_fits.
 
+(** the numerical core of the second write: the double nearest a decimal of p+1 <= 15 digits,
+    decimal exponent within [-300, 300], prints with p decimals the same digits and exponent *)
+Theorem nearest_double_prints_same_digits : forall p N k ng,
+  (0 <= p <= 14)%Z -> (10 ^ p <= N < 10 ^ (p + 1))%Z -> (-300 <= k <= 300)%Z ->
+  exists m' e', nearest (Fin ng (Z.to_N N) (k - p)) = PDy ng m' e' /\ (0 < m')%Z /\
+                sci p (fst (num_den m' e')) (snd (num_den m' e')) = (N, k).
+Proof. exact nearest_trip. Qed.
+Print Assumptions nearest_double_prints_same_digits.
+(** a real that fits and is [stable_ok] is re-written with the same text; so is every other value that fits *)
+Theorem field_rewritten_identically : forall f v, fits_ok f v = true -> stable_ok f v = true -> idem_ok f v = true.
+Proof. exact stable_idem. Qed.
+Print Assumptions field_rewritten_identically.
+(** a value printed with the precision of the table is read back as a value printed with that precision
+    (the same-precision clause of [stable_ok] can only fail after the precision was lowered) *)
+Theorem full_precision_is_kept : forall f ng m e, ft f = Te -> (0 < m)%Z -> used_prec f (XReal ng m e) = Some (prec f) ->
+  (0 <= prec f <= 14)%Z -> (-300 <= snd (sci (prec f) (fst (num_den m e)) (snd (num_den m e))) <= 300)%Z ->
+  exists m' e', canon_field f (MNum (PDy ng m e)) = MNum (PDy ng m' e') /\ used_prec f (XReal ng m' e') = Some (prec f).
+Proof. exact Stable.full_precision_is_kept. Qed.
+Print Assumptions full_precision_is_kept.
+
 (** second write: write (canon i) = write i, byte for byte *)
-Theorem incon_write_idem_any_layouts_partial : forall L reset i,
-  layouts_ok L = true -> forallb (fun b => (length (bname b) =? 5)%nat) (blocks i) = true -> idemb L reset i = true ->
+Theorem incon_write_idem_any_layouts : forall L nv check reset i,
+  layouts_ok L = true -> wfb_fits L nv check reset i = true -> stableb L reset i = true ->
   write_L L reset (canon_L L reset i) = write_L L reset i.
-Proof. exact write_idem_L. Qed.
-Print Assumptions incon_write_idem_any_layouts_partial.
-Theorem incon_write_idem_partial : forall nv check reset i, wf_fits nv check reset i = true -> idem_hyp reset i = true ->
+Proof. exact write_idem_stable_L. Qed.
+Print Assumptions incon_write_idem_any_layouts.
+Theorem incon_write_idem : forall nv check reset i, wf_fits nv check reset i = true -> stable_hyp reset i = true ->
   write reset (canon reset i) = write reset i.
-Proof. exact write_idem_fits. Qed.
-Print Assumptions incon_write_idem_partial.
+Proof. exact write_idem_stable. Qed.
+Print Assumptions incon_write_idem.
 (** the property statement: write, read back, write again -- the same lines *)
-Theorem incon_second_write_identical_partial : forall nv check reset i, wf_fits nv check reset i = true -> idem_hyp reset i = true ->
+Theorem incon_second_write_identical : forall nv check reset i, wf_fits nv check reset i = true -> stable_hyp reset i = true ->
   exists ls j, write reset i = Ok ls /\ read nv check ls = Ok j /\ write reset j = Ok ls.
-Proof. exact second_write_identical_fits. Qed.
-Print Assumptions incon_second_write_identical_partial.
+Proof. exact second_write_identical_stable. Qed.
+Print Assumptions incon_second_write_identical.
 
 (** the hypotheses are met (TOUGHREACT with permeabilities, 5 variables on 2 lines, a negative
     3-digit-exponent value, nseq/nadd, absent porosity, a digit-blank-digit name, timing kept;
     TOUGH2 without blocks; TOUGH2 with timing reset or kept, num_variables not given) *)
-Theorem hypotheses_satisfiable_toughreact : wf_fits (Some 5) true false ex_tr = true /\ idem_hyp false ex_tr = true.
+Theorem hypotheses_satisfiable_toughreact : wf_fits (Some 5) true false ex_tr = true /\ idem_hyp false ex_tr = true /\ stable_hyp false ex_tr = true.
 Proof. exact ex_tr_wf. Qed.
 Print Assumptions hypotheses_satisfiable_toughreact.
 Theorem hypotheses_satisfiable_tough2 :
-  wf_fits None true true ex_empty = true /\ idem_hyp true ex_empty = true /\
-  wf_fits None false true ex_t2 = true /\ idem_hyp true ex_t2 = true /\ wf_fits (Some 1) false false ex_t2 = true.
+  wf_fits None true true ex_empty = true /\ stable_hyp true ex_empty = true /\
+  wf_fits None false true ex_t2 = true /\ stable_hyp true ex_t2 = true /\ wf_fits (Some 1) false false ex_t2 = true /\
+  stable_hyp false ex_t2 = true.
 Proof. exact ex_t2_wf. Qed.
 Print Assumptions hypotheses_satisfiable_tough2.
 
@@ -158,7 +180,7 @@ Theorem gen_padstring_is_model : forall s, (0 <= padstring_default_length)%Z ->
 Proof. exact gen_padstring_spec. Qed.
 Print Assumptions gen_padstring_is_model.
 
-(** the two recorded defects of the current code (known_findings.txt), as theorems about the
+(** the three recorded defects of the current code (known_findings.txt), as theorems about the
     faithful model: the unguarded statements are false *)
 Theorem flavour_roundtrip_refuted :
   exists i ls j, write false i = Ok ls /\ read (Some 2) true ls = Ok j /\
@@ -170,3 +192,8 @@ Theorem second_write_refuted :
                      write false j = Ok ls2 /\ lines_eqb ls ls2 = false /\ lines_eqb (skipn 1 ls) (skipn 1 ls2) = true.
 Proof. exact Current.second_write_refuted. Qed.
 Print Assumptions second_write_refuted.
+Theorem lowered_precision_rewrite_refuted :
+  exists i ls j ls2, wf_fits (Some 2) true true i = true /\ stable_hyp true i = false /\ write true i = Ok ls /\
+                     read (Some 2) true ls = Ok j /\ write true j = Ok ls2 /\ lines_eqb ls ls2 = false.
+Proof. exact Current.lowered_precision_rewrite_refuted. Qed.
+Print Assumptions lowered_precision_rewrite_refuted.
